@@ -77,8 +77,10 @@ theorem euler_time_rescale (f : V → V) (c h : K) (hc : c ≠ 0) (y : V) :
     euler (fun v => c • f v) y (h / c) = euler f y h := by
   simp only [euler, smul_smul, div_mul_cancel₀ _ hc]
 
-/-- one-step error of Euler against the exact flow `exp (h a) y` (real scalar case): order 2. -/
-theorem euler_one_step_error (a y h : ℝ) (hx : |h * a| ≤ 1) :
+/-- one-step error of Euler against the exact flow `exp (h a) y` (real SCALAR case only — renamed from
+    `euler_one_step_error` by the statement audit, like its Runge–Kutta twin; the matrix case is covered by the exact
+    Taylor-polynomial identities `euler_matrix` / `rk4_matrix`, the norm bound for matrices is `PARTIAL`): order 2. -/
+theorem euler_one_step_error_scalar (a y h : ℝ) (hx : |h * a| ≤ 1) :
     |Real.exp (h * a) * y - euler (fun v => a * v) y h| ≤ |h * a| ^ 2 * |y| := by
   have e : euler (fun v => a * v) y h = (1 + h * a) * y := by
     simp only [euler, smul_eq_mul]; ring
@@ -1256,6 +1258,15 @@ variable {P L : Type} [LT L] [DecidableLT L]
 theorem relaxLoop_zero (step : P → P) (measure : P → P → L) (tol : L) (p : P) :
     relaxLoop step measure tol 0 p = (p, []) := rfl
 
+/-- (statement audit) a loop asked for at least one pass makes at least one: the first pass is unconditional. -/
+theorem relaxLoop_runs_once (step : P → P) (measure : P → P → L) (tol : L) (n : Nat) (hn : 0 < n) (p : P) :
+    1 ≤ (relaxLoop step measure tol n p).2.length := by
+  cases n with
+  | zero => omega
+  | succ n =>
+    simp only [relaxLoop]
+    split <;> simp
+
 /-- a loop makes at most the requested number of passes. -/
 theorem relaxLoop_measures_length_le (step : P → P) (measure : P → P → L) (tol : L) (n : Nat) (p : P) :
     (relaxLoop step measure tol n p).2.length ≤ n := by
@@ -1358,6 +1369,15 @@ theorem relax_steps_le (p : Path V K) (respace : List Nat → List V → List V)
     (p.relax dot sqrt respace a).climbMeasures.length ≤ a.climbsteps ∧
     (p.relax dot sqrt respace a).climb.length ≤ a.climbpoints :=
   ⟨relaxLoop_measures_length_le _ _ _ _ _, relaxLoop_measures_length_le _ _ _ _ _, climbIndices_length_le _ _⟩
+
+/-- (statement audit) **the climbing phase runs whenever it is requested**, about `relax` ITSELF (the older
+    `climb_runs_when_requested` is about `relaxCounts` over free lists of measures, which `relax` does not call): with
+    `climbsteps > 0` at least one climbing step is made whatever the relaxation phase did — converged, exhausted, or
+    `relaxsteps = 0` — and likewise the relaxation phase makes at least one step when `relaxsteps > 0`. -/
+theorem relax_climb_runs_when_requested (p : Path V K) (respace : List Nat → List V → List V) (a : RelaxArgs K) :
+    (0 < a.climbsteps → 1 ≤ (p.relax dot sqrt respace a).climbMeasures.length) ∧
+    (0 < a.relaxsteps → 1 ≤ (p.relax dot sqrt respace a).relaxMeasures.length) :=
+  ⟨fun h => relaxLoop_runs_once _ _ _ _ h _, fun h => relaxLoop_runs_once _ _ _ _ h _⟩
 
 /-- the string `relax` returns is the string it was called on with other coordinates: energy function, gradient
     function, settings and integrator are those of the caller's path, for every re-spacing and all options. -/
@@ -1622,5 +1642,35 @@ example : createPath { energyCallable := false, style := some "NEB" } = .error .
 example : createPath ⟨true, none, some FxnArg.callable, some KwArg.dict, some (FxnArg.name "euler")⟩
     = .ok (.user, .euler, false) := by decide
 end examples5
+
+
+/-! ### statement audit: further non-vacuity instances -/
+
+/-- hypotheses of `phaseSteps_stops_at_first_small` (two measures at or above the tolerance, then one below, budget 5),
+    of `climb_runs_when_requested`, and the budget cutting in first (`pre.length < n` fails). -/
+example : phaseSteps (1/10 : ℚ) 5 ([1, 1/10] ++ 1/20 :: [3, 1/100]) = 3 ∧
+    phaseSteps (1/10 : ℚ) 2 ([1, 1/10] ++ 1/20 :: [3, 1/100]) = 2 ∧
+    (relaxCounts (1/10 : ℚ) 4 2 [1/100] [1, 1]).2 = 2 ∧ (relaxCounts (1/10 : ℚ) 0 2 [] [1/100, 1]).2 = 1 := by
+  decide +kernel
+
+/-- hypotheses of `relaxLoop_stopped_early` / `relaxLoop_measures_before_last` / `relaxLoop_runs_once` on a concrete loop
+    (halving a rational, measure = the distance moved): tolerance `1/5` stops it after 3 of 10 passes, the measures before
+    the last are not below the tolerance, the last is; with budget 2 it is cut off before converging. -/
+example : relaxLoop (fun x : ℚ => x / 2) (fun x y => x - y) (1/5) 10 1 = (1/8, [1/2, 1/4, 1/8]) ∧
+    relaxLoop (fun x : ℚ => x / 2) (fun x y => x - y) (1/5) 2 1 = (1/4, [1/2, 1/4]) := by
+  decide +kernel
+
+/-- hypotheses of `respaceGo_length` / `respaceGo_pinned` / `respaceTargets_pinned` with TWO climbing images (`[1, 3]`,
+    increasing, interior of a 6-image string): pinned images 0, 1, 3, 5 keep their arc coordinate, 2 and 4 are centred. -/
+example : Path.respaceTargets [1, 3] [0, 1, 2, 5, 6, (10 : ℚ)] = [0, 1, 3, 5, 15/2, 10] ∧
+    List.Pairwise (· < ·) (0 :: [1, 3]) ∧ (∀ c ∈ [1, 3], c + 1 < 6) := by
+  refine ⟨by decide +kernel, by decide, by decide⟩
+
+/-- hypothesis `hknot` of `splineRespace_keeps_pinned` (the interpolant returns its knots) is met by the piecewise-linear
+    interpolant on a concrete string, and the pinned rows are kept while the free row moves. -/
+example : Path.splineRespace (fun a b : ℚ => a * b) (fun x : ℚ => if x = 1 then 1 else if x = 9 then 3 else 0)
+    (fun _ rows a => if a = 0 then rows.getD 0 0 else if a = 1 then rows.getD 1 0 else if a = 4 then rows.getD 2 0 else a)
+    [] [0, 1, (4 : ℚ)] = [0, 2, 4] := by
+  decide +kernel
 
 end Atomman.C20
